@@ -306,13 +306,15 @@ class Profiles:
                 macros = {}
 
         # save name and raw props/macros if macros change to completely reset
-        self._profileNames.append(profile)
+        if profile not in self._profileNames:
+            # else the profile is redefined
+            self._profileNames.append(profile)
         self._rawProfiles[profile] = {
             'properties': properties.copy(),
             'macros': macros.copy(),
         }
-        # prepare and save properties
-        properties = self._expand_macros(properties, self._usedMacros)
+        # prepare and save properties, the caller's dict stays as it is
+        properties = self._expand_macros(properties.copy(), self._usedMacros)
         self._profilesProperties[profile] = self._compile_regexes(properties)
 
         self.__update_knownNames()
